@@ -217,13 +217,14 @@ func (s *spyRT) RoundTrip(req *http.Request) (*http.Response, error) {
 }
 
 type c05RealCase struct {
-	TimeoutMs int    `json:"client_timeout_ms,omitempty"` // every 4th request is held longer than this by the server
-	Workers   uint64 `json:"workers"`
-	MaxConns  int    `json:"max_conns_per_host"`
-	Hits      int    `json:"hits"`
-	HandlerUs int    `json:"handler_delay_us"`
-	Redirects int    `json:"redirect_hops"`
-	KeepAlive bool   `json:"keepalive"`
+	BrokenBody bool   `json:"broken_body,omitempty"`       // every 3rd response announces 100 bytes, sends 10 and drops the connection; max-body 5
+	TimeoutMs  int    `json:"client_timeout_ms,omitempty"` // every 4th request is held longer than this by the server
+	Workers    uint64 `json:"workers"`
+	MaxConns   int    `json:"max_conns_per_host"`
+	Hits       int    `json:"hits"`
+	HandlerUs  int    `json:"handler_delay_us"`
+	Redirects  int    `json:"redirect_hops"`
+	KeepAlive  bool   `json:"keepalive"`
 }
 
 // runC05Real checks the latency clauses against a real http.Transport and a
@@ -242,8 +243,23 @@ func runC05Real(run *ev.Run, cs c05RealCase) {
 	var served atomic.Int64
 	mux.HandleFunc(fmt.Sprintf("/hop%d", cs.Redirects), func(w http.ResponseWriter, r *http.Request) {
 		time.Sleep(delay)
-		if cs.TimeoutMs > 0 && served.Add(1)%4 == 0 {
+		n := served.Add(1)
+		if cs.TimeoutMs > 0 && n%4 == 0 {
 			time.Sleep(time.Duration(3*cs.TimeoutMs) * time.Millisecond) // the client gives up first
+		}
+		if cs.BrokenBody && n%3 == 0 {
+			time.Sleep(3 * time.Millisecond) // time spent inside the transport before the headers arrive
+			w.Header().Set("Content-Length", "100")
+			_, _ = w.Write([]byte("0123456789"))
+			if f, ok := w.(http.Flusher); ok {
+				f.Flush()
+			}
+			if hj, ok := w.(http.Hijacker); ok {
+				if conn, _, err := hj.Hijack(); err == nil {
+					conn.Close() // the body fails midway, beyond what max-body keeps
+				}
+			}
+			return
 		}
 		fmt.Fprint(w, "ok")
 	})
@@ -258,6 +274,9 @@ func runC05Real(run *ev.Run, cs c05RealCase) {
 	opts := []func(*vegeta.Attacker){vegeta.Client(&http.Client{Transport: spy}), vegeta.Workers(cs.Workers), vegeta.MaxWorkers(cs.Workers)}
 	if cs.TimeoutMs > 0 {
 		opts = append(opts, vegeta.Timeout(time.Duration(cs.TimeoutMs)*time.Millisecond))
+	}
+	if cs.BrokenBody {
+		opts = append(opts, vegeta.MaxBody(5))
 	}
 	atk := vegeta.NewAttacker(opts...)
 	var got []*vegeta.Result
@@ -279,10 +298,13 @@ func runC05Real(run *ev.Run, cs c05RealCase) {
 	viol := func(clause, note string, r *vegeta.Result) {
 		run.Violate("C05/"+clause+"/real-transport", fmt.Sprintf("%+v: %s", cs, note), map[string]any{"real_case": cs, "note": note, "result": resBrief(r, base)})
 	}
-	okHits, timedOut := 0, 0
+	okHits, timedOut, brokenBodies := 0, 0, 0
 	for _, r := range got {
 		if r.Error != "" && cs.TimeoutMs > 0 {
 			timedOut++
+		}
+		if r.Error != "" && cs.BrokenBody {
+			brokenBodies++
 		}
 		ts := r.Timestamp.Sub(base)
 		first, seen := spy.first[r.Seq]
@@ -307,6 +329,7 @@ func runC05Real(run *ev.Run, cs c05RealCase) {
 	}
 	run.Count("real_transport_hits_ok", int64(okHits))
 	run.Count("real_transport_hits_timed_out_at_the_client", int64(timedOut))
+	run.Count("real_transport_hits_with_a_body_failing_midway", int64(brokenBodies))
 	b, _ := json.Marshal(cs)
 	run.Distinct("real:" + string(b))
 	run.Class(fmt.Sprintf("real-transport/redirects-%d/conns-%d", cs.Redirects, cs.MaxConns))
@@ -330,6 +353,9 @@ func runC05(c *Ctx) int {
 				HandlerUs: []int{0, 500, 2000}[rng.Intn(3)], Redirects: []int{0, 0, 2, 3}[rng.Intn(4)], KeepAlive: rng.Intn(3) != 0}
 			if i == 3 {
 				rc.TimeoutMs, rc.Hits, rc.MaxConns = 25, 60, 0
+			}
+			if i == 2 {
+				rc.BrokenBody, rc.Hits, rc.Redirects = true, 90, 0
 			}
 			b, _ := json.Marshal(rc)
 			logCase(string(b))
@@ -376,7 +402,8 @@ func runC05(c *Ctx) int {
 	run.Floor("attacks", int64(shards*per*9/10))
 	run.Floor("results", int64(shards*per*20000*9/10))
 	run.Floor("results_arriving_out_of_seq_order", 1000)
-	run.Floor("real_transport_hits_ok", int64(shards*3*150/2))
+	run.Floor("real_transport_hits_ok", int64(shards*2*150/2))
+	run.Floor("real_transport_hits_with_a_body_failing_midway", int64(shards*10))
 	run.Floor("real_transport_hits_timed_out_at_the_client", int64(shards))
 	run.FloorDistinct(shards * per / 2)
 	return run.Finish()
